@@ -205,8 +205,8 @@ CHECKS = {
             'metric, MDS of both MDS, VMD, system context, unknown - duplicates and mixed kinds arise by construction) are sent as '
             'GetMdState and GetContextStates through the real consumer service clients over the loop-back transport, for 4 MDIB '
             'contents x {single-MDS, two-MDS MDIB} x contextstates_in_getmdib in {T, F}; the returned multiset must equal a reference '
-            'selection computed from the provider tables by the BICEPS rules in the property. GetLocalizedText: 6 text stores x all '
-            '1600 combinations of Ref / Version / Lang / TextWidth / NumberOfLines; every returned text must satisfy every constraint, '
+            'selection computed from the provider tables by the BICEPS rules in the property. GetLocalizedText: 8 text stores x all '
+            '2000 combinations of Ref / Version / Lang / TextWidth / NumberOfLines; every returned text must satisfy every constraint, '
             'the unconstrained query must return all texts of the latest version, GetSupportedLanguages the stored language set.',
             'Constrained localization queries are checked for soundness only (as the property states); handle pool and stores as '
             'listed in the evidence.', '3/C20'),
